@@ -1,15 +1,16 @@
-(* C10 at the application level (several securities), simple mode: the summary of
+(* C10 at the application level (several securities), both modes: the summary of
    the history is the concatenation of the per-security summaries, the re-run of
    (summary ++ later rows) decomposes per security, and - read indices being the
    only difference between "the security's rows inside the whole input" and "the
    security's rows alone" - the round trip of every security
-   (C10Entry.roundtrip_single_security) gives the round trip of the application
+   (C10Entry.roundtrip_single_security, C10AnnualEntry.roundtrip_annual_single_security)
+   gives the round trip of the application
    (Model/SummaryApp.v app_roundtrip). *)
 From Coq Require Import List NArith ZArith QArith Qcanon Bool Lia Sorted.
 From ACB Require Import Base.Outcome Base.QcExtra Base.Arith Model.Tx Model.Ledger Model.Sfl
      Model.DeltaList Model.App Model.Summary Model.SummaryObs Model.SummaryApp
      Proofs.Tactics Proofs.EraseRi Proofs.SortLayout Proofs.Layout Proofs.C15Full Proofs.C16App Proofs.C08Agg
-     Proofs.C10Entry Proofs.C10Examples Proofs.C10Erase.
+     Proofs.C10Entry Proofs.C10Examples Proofs.C10AnnualEx Proofs.C10Erase.
 Import ListNotations.
 Local Open Scope Z_scope.
 
@@ -214,39 +215,48 @@ Proof.
 Qed.
 
 (* ================================================================ F. the hypotheses, security by security *)
-(* the hypotheses of C10_roundtrip_simple_single_security on the rows of
+(* the hypotheses of C10_roundtrip_simple_single_security ([annual] = false) /
+   C10_roundtrip_annual_single_security_partial ([annual] = true) on the rows of
    security [s] of the history, numbered within the security *)
-Definition sec_hyps (regof : N -> bool) (latest : Z) (rows0 : list tx) (s : N) : Prop :=
+Definition sec_class (annual : bool) (latest : Z) (rows : list tx) : bool :=
+  if annual then K_annual_row_in_window exact latest true rows else K_summary_buy_in_window exact latest false rows.
+Definition sec_hyps (regof : N -> bool) (annual : bool) (latest : Z) (rows0 : list tx) (s : N) : Prop :=
   Forall (rowQ regof s) (txs_of_sec s rows0)
   /\ forallb valid_tx (txs_of_sec s rows0) = true
   /\ K_zero_sfl_cell (txs_of_sec s rows0) = false
   /\ history_ok exact (Summary.number_from 0 (txs_of_sec s rows0)) = true
-  /\ K_summary_buy_in_window exact latest false (Summary.number_from 0 (txs_of_sec s rows0)) = false
+  /\ sec_class annual latest (Summary.number_from 0 (txs_of_sec s rows0)) = false
   /\ K_zero_balance_acb exact latest (Summary.number_from 0 (txs_of_sec s rows0)) = false
-  /\ (forall sums, make_summary exact latest (fst (sec_run exact (Summary.number_from 0 (txs_of_sec s rows0)))) false = Ok sums ->
+  /\ (forall sums, make_summary exact latest (fst (sec_run exact (Summary.number_from 0 (txs_of_sec s rows0)))) annual = Ok sums ->
                    through_csv sums = sums).
 
 Section Key.
   Variable regof : N -> bool.
+  Variable annual : bool.
   Variable latest : Z.
   Variable rows0 : list tx.
   Let R (s : N) : result := sec_result_of exact None (txs_of_sec s (sort_txs (number rows0))).
 
   (* what the round trip of security [s] alone says about [s] inside the history *)
-  Lemma sec_key s : sec_hyps regof latest rows0 s ->
+  Lemma sec_key s : sec_hyps regof annual latest rows0 s ->
     exists x sums' ds' ds2',
       snd (R s) = None
-      /\ make_summary exact latest (fst (R s)) false = Ok x /\ through_csv x = x /\ Forall (fun t => t_sec t = s) x
+      /\ make_summary exact latest (fst (R s)) annual = Ok x /\ through_csv x = x /\ Forall (fun t => t_sec t = s) x
       /\ map erase x = map erase sums' /\ map erase_d (fst (R s)) = map erase_d ds'
       /\ sec_run exact (number (sums' ++ rows_after latest (number (txs_of_sec s rows0)))) = (ds2', None)
       /\ (forall obs, same_reports (later_of obs latest ds') (later_of obs latest ds2') = true).
   Proof.
     intros (HQ & Hv & Hz & Hok & HK1 & HK3 & Hcsv).
-    destruct (roundtrip_single_security_exec regof s latest (txs_of_sec s rows0) HQ Hv Hz Hok HK1 HK3 Hcsv) as [Hrt Hobs].
+    assert (Hboth : roundtrip_ok exact latest annual (Summary.number_from 0 (txs_of_sec s rows0)) = true
+                    /\ roundtrip_obs_ok exact latest annual (Summary.number_from 0 (txs_of_sec s rows0)) = true).
+    { unfold sec_class in HK1. destruct annual.
+      - exact (roundtrip_annual_single_security_exec regof s latest (txs_of_sec s rows0) HQ Hv Hz Hok HK1 HK3 Hcsv).
+      - exact (roundtrip_single_security_exec regof s latest (txs_of_sec s rows0) HQ Hv Hz Hok HK1 HK3 Hcsv). }
+    destruct Hboth as [Hrt Hobs].
     unfold roundtrip_ok, roundtrip_of in Hrt. unfold roundtrip_obs_ok, roundtrip_obs_of in Hobs.
     rewrite !number_from_eq in *. fold (number (txs_of_sec s rows0)) in *.
     set (rs := number (txs_of_sec s rows0)) in *.
-    destruct (make_summary exact latest (fst (sec_run exact rs)) false) as [sums'| |] eqn:Ems;
+    destruct (make_summary exact latest (fst (sec_run exact rs)) annual) as [sums'| |] eqn:Ems;
       [|discriminate Hrt|discriminate Hrt].
     specialize (Hcsv sums' eq_refl). rewrite Hcsv in Hrt, Hobs. rewrite number_from_eq in Hrt, Hobs.
     fold (number (sums' ++ rows_after latest rs)) in *.
@@ -256,7 +266,7 @@ Section Key.
     fold (R s) in H1a, H1b. fold rs in H1a, H1b.
     assert (HsN : snd (sec_run exact rs) = None).
     { unfold history_ok in Hok. destruct (snd (sec_run exact rs)); [discriminate Hok | reflexivity]. }
-    destruct (make_summary_up_to_ri exact latest false _ _ sums' H1a Ems) as (x & Ex & Exs).
+    destruct (make_summary_up_to_ri exact latest annual _ _ sums' H1a Ems) as (x & Ex & Exs).
     assert (Hds : Forall (fun d => t_sec (d_tx d) = s) (fst (sec_run exact rs))).
     { assert (HQr : Forall (rowQ regof s) rs).
       { unfold rs, number. rewrite <- number_from_eq. apply number_from_Forall; [intros t i H; exact H | exact HQ]. }
@@ -270,25 +280,25 @@ Section Key.
     exists x, sums', (fst (sec_run exact rs)), ds2'.
     split; [congruence|]. split; [exact Ex|].
     split; [apply (through_csv_up_to_ri _ _ Exs Hcsv)|].
-    split; [apply (sec_erase_Forall s _ _ Exs), (make_summary_sec exact s latest _ false sums' Hds Ems)|].
+    split; [apply (sec_erase_Forall s _ _ Exs), (make_summary_sec exact s latest _ annual sums' Hds Ems)|].
     split; [exact Exs|]. split; [exact H1a|]. split; [exact E2|].
     intros [|]; unfold later_of; [exact Hobs | exact Hrt].
   Qed.
 End Key.
 
 (* ================================================================ G. the round trip of the application *)
-Theorem roundtrip_simple_app regof latest rows0 :
-  (forall s, In s (securities rows0) -> sec_hyps regof latest rows0 s) ->
+Theorem roundtrip_app regof annual latest rows0 :
+  (forall s, In s (securities rows0) -> sec_hyps regof annual latest rows0 s) ->
   app_history_ok exact (Summary.number_from 0 rows0) = true
-  /\ forall obs, app_roundtrip exact obs latest false (Summary.number_from 0 rows0) = true.
+  /\ forall obs, app_roundtrip exact obs latest annual (Summary.number_from 0 rows0) = true.
 Proof.
   intros Hall. rewrite number_from_eq. fold (number rows0).
   set (R := fun s : N => sec_result_of exact None (txs_of_sec s (sort_txs (number rows0)))).
   set (SL := securities (sort_txs (number rows0))).
-  assert (HSL : forall s, In s SL -> sec_hyps regof latest rows0 s).
+  assert (HSL : forall s, In s SL -> sec_hyps regof annual latest rows0 s).
   { intros s Hs. apply Hall. apply securities_in. apply run_has_security in Hs. exact Hs. }
   assert (Hnd : NoDup SL) by (apply strongly_sorted_nodup, securities_sorted).
-  pose proof (fun s Hs => sec_key regof latest rows0 s (HSL s Hs)) as Hkey. fold R in Hkey.
+  pose proof (fun s Hs => sec_key regof annual latest rows0 s (HSL s Hs)) as Hkey. fold R in Hkey.
   assert (Hstop : app_stops (map (fun s => (s, R s)) SL) = false).
   { apply app_stops_map. intros s Hs. destruct (Hkey s Hs) as (x & sums' & ds' & ds2' & H1 & _). exact H1. }
   split.
@@ -297,10 +307,10 @@ Proof.
   intros obs. unfold app_roundtrip. rewrite run_app_none. fold SL.
   change (fun s : N => (s, sec_result_of exact None (txs_of_sec s (sort_txs (number rows0)))))
     with (fun s : N => (s, R s)).
-  set (f := sum_of exact R latest false).
-  assert (Hf : forall s, In s SL -> make_summary exact latest (fst (R s)) false = Ok (f s)).
+  set (f := sum_of exact R latest annual).
+  assert (Hf : forall s, In s SL -> make_summary exact latest (fst (R s)) annual = Ok (f s)).
   { intros s Hs. destruct (Hkey s Hs) as (x & sums' & ds' & ds2' & _ & H2 & _). unfold f, sum_of. rewrite H2. reflexivity. }
-  rewrite (all_summaries_map exact R latest false SL) by (intros s Hs; exists (f s); apply Hf; exact Hs).
+  rewrite (all_summaries_map exact R latest annual SL) by (intros s Hs; exists (f s); apply Hf; exact Hs).
   fold f.
   assert (Hfsec : forall t, In t SL -> Forall (fun x => t_sec x = t) (f t)).
   { intros s Hs. destruct (Hkey s Hs) as (x & sums' & ds' & ds2' & _ & H2 & _ & H4 & _).
